@@ -425,9 +425,13 @@ def woff2_close_order(ctx, repo):
 # ---------------------------------------------------------------------------
 def woff_block_offsets(ctx, repo):
     ctx.rule("WOFF-off", "in the WOFF writer every `self.<x>Offset = self.file.tell()` is taken right where block <x> starts: the next write to the file after it is the block's data, not padding or another block (an offset taken before the alignment padding points 1-3 bytes early and the block reads back shifted)", floor=2)
+    from ..core import private_callees
+
     f = repo.mod("ttLib/sfnt.py").func("SFNTWriter.close")
     n = 0
-    for blk_owner in ast.walk(f.node):
+    # close() together with the private methods it calls (the two blocks may have been extracted)
+    roots = [f.node] + [h.node for h in private_callees(repo, f, depth=1) if h.node is not f.node]
+    for blk_owner in [x for r_ in roots for x in ast.walk(r_)]:
         for fld in ("body", "orelse"):
             blk = getattr(blk_owner, fld, None)
             if not isinstance(blk, list):
